@@ -98,7 +98,7 @@ func init() {
 			ruleRangeHandler(c, "C02.", map[string]bool{"C02": true})
 			ruleRangeRestart(c, "C02.RANGE.RESTART")
 			ruleDBLoad(c, "C02.") // "with restarts in between": the restored map must be keyed like the handler's lookups
-			ruleGuardedBy(c, "C02.")
+			ruleGuardedBy(c, "C02.", "range.")
 			c.R.Floor("C02.RANGE.LOOKUP-FIRST", 1)
 			c.R.Floor("C02.RANGE.INSERT", 1)
 			c.R.Floor("C02.RANGE.EXHAUST", 1)
@@ -136,6 +136,7 @@ func init() {
 		Run: func(c *Ctx) {
 			rulePrefix(c, "C08.", map[string]bool{"C08": true})
 			ruleAlloc(c, "C08.", map[string]bool{"TESTSET": true, "SAMEINDEX": true, "LOCK": true}) // disjointness across clients rests on the allocator
+			ruleGuardedBy(c, "C08.", "prefix.")
 			for _, r := range []string{"PD.PROVENANCE", "PD.OWN-KEY", "PD.ONE-PER-IAPD", "PD.NOPREFIX", "PD.LIFETIME", "PD.FRESH", "PD.LOCK"} {
 				c.R.Floor("C08."+r, 1)
 			}
@@ -148,6 +149,7 @@ func init() {
 		Assume:  []string{"that a repeated request returns the same prefix *value* (needs run-time content of Records)", "lifetime not shorter than what remained (timing)", "recognition of the hint-less placeholder by the empty-hint filter is a value property (len/Equal of a zero-length IP) that the armed rules do not decide"},
 		Run: func(c *Ctx) {
 			rulePrefix(c, "C09.", map[string]bool{"C09": true})
+			ruleGuardedBy(c, "C09.", "prefix.") // remembering a lease is a read-modify-write of Records: one critical section
 			fn := c.P.Func("plugins/prefix", "*Handler", "Handle")
 			sp := c.P.Func("plugins/prefix", "", "samePrefix")
 			if fn != nil {
@@ -169,7 +171,7 @@ func init() {
 		Assume:  []string{"net.ParseMAC / net.ParseIP grammars (stdlib)", "fsnotify event delivery ('eventually')", "last occurrence wins = Go map overwrite semantics"},
 		Run: func(c *Ctx) {
 			ruleFilePlugin(c, "C10.")
-			ruleGuardedBy(c, "C10.")
+			ruleGuardedBy(c, "C10.", "file.")
 			c.R.Floor("C10.FILE.PER-PROTOCOL", 1)
 			c.R.Floor("C10.FILE.SWAP", 1)
 			c.R.Floor("C10.FILE.ALL-OR-NOTHING", 2)
